@@ -1,6 +1,6 @@
 (* C08 proofs, part 5: BorrowAlternate, the interest / reward messages, one message, histories. *)
 From Comdex Require Import Lib.Base Lib.DecArith Model.Lend Proofs.LendProofs Proofs.LendProofsInv Proofs.LendProofsSide
-     Proofs.LendProofsSteps Proofs.LendProofsSteps2.
+     Proofs.LendProofsSteps Proofs.LendProofsSteps2 Proofs.LendProofsLiq.
 From Coq Require Import ZifyBool.
 
 Section Hist.
@@ -68,11 +68,12 @@ Section Hist.
 
   Definition is_setprice (o : op) : bool := match o with OSetPrice _ _ => true | _ => false end.
 
-  (* one message: the invariants are kept; only the oracle op moves a price *)
+  (* one message outside known-finding class 2: the invariants are kept; only the oracle op moves a price *)
   Lemma step_good st o st' :
-    Good cfg st -> step cfg st o = Ok st' -> Good cfg st' /\ (is_setprice o = false -> prices st' = prices st).
+    Good cfg st -> kf_C08_2 st o = false -> step cfg st o = Ok st' ->
+    Good cfg st' /\ (is_setprice o = false -> prices st' = prices st).
   Proof.
-    intros HG H. destruct o; cbn [step] in H;
+    intros HG Hkf H. destruct o; cbn [step] in H;
       try (match type of H with (if ?c then _ else _) = _ => destruct c eqn:Ec; [discriminate|] end).
     - destruct (lend_good _ _ _ _ _ _ _ _ _ _ HG H). tauto.
     - destruct (withdraw_good _ _ _ _ _ _ _ _ HG H). tauto.
@@ -86,16 +87,32 @@ Section Hist.
     - edestruct borrow_alternate_good as (A & B); [exact HG| |exact H|tauto]. lia.
     - destruct (calc_all_good _ _ _ _ _ HG H). tauto.
     - injection H as <-. split; [exact HG|discriminate].
+    - destruct (hand_over_good _ _ _ _ _ _ HG Hkf H). tauto.
   Qed.
 
-  Lemma apply_op_good st o : Good cfg st -> Good cfg (apply_op cfg st o).
+  Lemma apply_op_good st o : Good cfg st -> kf_C08_2 st o = false -> Good cfg (apply_op cfg st o).
   Proof.
-    intros HG. unfold apply_op. destruct (step cfg st o) as [st'|c|] eqn:E; try exact HG.
-    exact (proj1 (step_good _ _ _ HG E)).
+    intros HG Hkf. unfold apply_op. destruct (step cfg st o) as [st'|c|] eqn:E; try exact HG.
+    exact (proj1 (step_good _ _ _ HG Hkf E)).
   Qed.
 
-  Lemma run_good ops : forall st, Good cfg st -> Good cfg (run cfg st ops).
+  Lemma run_good ops : forall st, Good cfg st -> clean cfg st ops -> Good cfg (run cfg st ops).
   Proof.
-    induction ops as [|o r IH]; intros st HG; [exact HG|]. cbn [run fold_left]. apply IH. apply apply_op_good. exact HG.
+    induction ops as [|o r IH]; intros st HG Hc; [exact HG|]. destruct Hc as (Hk & Hc).
+    cbn [run fold_left]. apply IH; [apply apply_op_good; assumption|exact Hc].
+  Qed.
+
+  Lemma cleanb_ok ops : forall st, cleanb cfg st ops = true -> clean cfg st ops.
+  Proof.
+    induction ops as [|o r IH]; intros st H; [exact I|]. cbn [cleanb] in H. apply andb_prop in H as (H1 & H2).
+    split; [destruct (kf_C08_2 st o); [discriminate|reflexivity]|apply IH; exact H2].
+  Qed.
+
+  (* histories of the eleven lend messages and oracle moves are clean *)
+  Definition is_handover (o : op) : bool := match o with OHandOver _ _ _ => true | _ => false end.
+  Lemma clean_no_handover ops : forall st, forallb (fun o => negb (is_handover o)) ops = true -> clean cfg st ops.
+  Proof.
+    induction ops as [|o r IH]; intros st H; [exact I|]. cbn [forallb] in H. apply andb_prop in H as (H1 & H2).
+    split; [destruct o; try reflexivity; discriminate|apply IH; exact H2].
   Qed.
 End Hist.
